@@ -78,13 +78,60 @@ type version struct {
 
 // memProvider is the value provider behind the injected runtime database.
 type memProvider struct {
-	mu   sync.Mutex
-	recs map[string]record.Record
+	mu    sync.Mutex
+	recs  map[string]record.Record
+	fault map[string]bool // lookups of these keys fail (Set keeps working)
 }
+
+func (p *memProvider) setFault(dbKey string, on bool) {
+	p.mu.Lock()
+	if p.fault == nil {
+		p.fault = map[string]bool{}
+	}
+	p.fault[dbKey] = on
+	p.mu.Unlock()
+}
+
+// exactProvider is a read/write value provider registered on exactly one key (like
+// runtime.ProvideRecord, but writable so that the privileged side can fill it
+// through the database).
+type exactProvider struct {
+	mu  sync.Mutex
+	key string
+	rec record.Record
+}
+
+func (p *exactProvider) Get(keyOrPrefix string) ([]record.Record, error) {
+	p.mu.Lock()
+	defer p.mu.Unlock()
+	if keyOrPrefix != p.key || p.rec == nil {
+		return nil, nil
+	}
+	return []record.Record{p.rec}, nil
+}
+
+func (p *exactProvider) Set(r record.Record) (record.Record, error) {
+	p.mu.Lock()
+	defer p.mu.Unlock()
+	p.rec = r
+	return r, nil
+}
+
+// exactKey registers a single-record provider on the database key of key.
+func (w *world) exactKey(key string) error {
+	_, dbKey := record.ParseKey(key)
+	_, err := w.reg.Register(dbKey, &exactProvider{key: dbKey})
+	return err
+}
+
+var errProviderDown = errors.New("value provider backend unavailable (harness fault)")
 
 func (p *memProvider) Get(keyOrPrefix string) ([]record.Record, error) {
 	p.mu.Lock()
 	defer p.mu.Unlock()
+	if p.fault[keyOrPrefix] {
+		return nil, errProviderDown
+	}
 	var keys []string
 	for k := range p.recs {
 		if strings.HasPrefix(k, keyOrPrefix) {
